@@ -160,12 +160,30 @@ type modelReader struct {
 	sched []modelStep
 	ewd   bool
 	err   error
+	mode  string // sticky | once | oncedata
 }
 
 func (r *modelReader) Read(p []byte) (int, error) {
 	n := len(p)
 	if len(r.sched) > 0 {
 		if r.sched[0].fail {
+			switch r.mode {
+			case "once":
+				r.sched = r.sched[1:]
+				return 0, r.err
+			case "oncedata":
+				k := r.sched[0].n
+				r.sched = r.sched[1:]
+				if len(p) < k {
+					k = len(p)
+				}
+				if len(r.rest) < k {
+					k = len(r.rest)
+				}
+				copy(p, r.rest[:k])
+				r.rest = r.rest[k:]
+				return k, r.err
+			}
 			return 0, r.err
 		}
 		n = r.sched[0].n
@@ -196,7 +214,10 @@ func init() { kinds["tokens"] = runTokens }
 // tokens: <doc> (sched (n fail)...) (ewd 0|1)  ->  (ok (t type off line col text)...) | (error)
 func runTokens(payload []*Sx) *Sx {
 	doc := []byte(payload[0].Str())
-	rd := &modelReader{rest: doc, ewd: payload[2].List[1].Atom == "1", err: errors.New("scripted reader failure")}
+	rd := &modelReader{rest: doc, ewd: payload[2].List[1].Atom == "1", err: errors.New("scripted reader failure"), mode: "sticky"}
+	if len(payload) > 3 {
+		rd.mode = payload[3].List[1].Atom
+	}
 	for _, s := range payload[1].List[1:] {
 		rd.sched = append(rd.sched, modelStep{n: int(mustInt64(s.List[0].Atom)), fail: s.List[1].Atom == "1"})
 	}
